@@ -258,7 +258,10 @@ func (g *gen) genStatement(typ types.Type, this, that string) error {
 			} else {
 				p.P("return %s.Compare(string(%s), string(%s))", g.stringsPkg(), this, that)
 			}
-		case types.Complex128, types.Complex64:
+		case types.UnsafePointer, types.UntypedNil:
+			// pointers are not ordered and nil does not have a type that can be a parameter.
+			return fmt.Errorf("unsupported compare type: %s", g.TypeString(typ))
+		case types.Complex128, types.Complex64, types.UntypedComplex:
 			p.P("if thisr, thatr := real(%s), real(%s); thisr == thatr {", this, that)
 			p.In()
 			p.P("if thisi, thati := imag(%s), imag(%s); thisi == thati {", this, that)
@@ -284,7 +287,7 @@ func (g *gen) genStatement(typ types.Type, this, that string) error {
 			p.P("return 1")
 			p.Out()
 			p.P(`}`)
-		case types.Bool:
+		case types.Bool, types.UntypedBool:
 			p.P("if %s == %s {", this, that)
 			p.In()
 			p.P("return 0")
